@@ -358,22 +358,6 @@ impl RuntimeData {
             }
         }
 
-        // open upvalues are linked into a list that register_upvalue / close_upvalues walk, they
-        // must stay alive until they are closed, even if their closure is already garbage
-        let mut upvalue = self.open_upvalues;
-        unsafe {
-            while let Some(t) = upvalue.as_mut() {
-                upvalue = t
-                    .as_upvalue()
-                    .map(|u| u.next)
-                    .unwrap_or(std::ptr::null_mut());
-                if matches!(t.marker, GcMarker::White) {
-                    t.marker = GcMarker::Gray;
-                    progress_tracker.push(t);
-                }
-            }
-        }
-
         macro_rules! checked_enqueue_value {
             ($val: ident) => {
                 if let Value::Object(mut value) = $val {
@@ -423,6 +407,23 @@ impl RuntimeData {
                         checked_enqueue_value!(t);
                     }
                 },
+            }
+        }
+        // open upvalues are linked into a list that register_upvalue / close_upvalues walk. They
+        // are kept alive by the closures that use them: the ones nobody uses any more leave the
+        // list here and are collected with the rest of the garbage
+        unsafe {
+            let mut link: *mut *mut CaoLangObject = &mut self.open_upvalues;
+            while let Some(t) = (*link).as_mut() {
+                let white = matches!(t.marker, GcMarker::White);
+                let Some(u) = t.as_upvalue_mut() else {
+                    break;
+                };
+                if white {
+                    *link = u.next;
+                } else {
+                    link = &mut u.next;
+                }
             }
         }
         // sweep
